@@ -39,6 +39,12 @@ PINNED_MOD = [
     {"prog": [["Def", "x"]], "len": 1, "ctx": "unset", "io": "unset", "budget": 8,
      "codemap": "empty-at-end", "labels": "zero", "defs": "ok", "entry": "raw",
      "exp": "runs", "base_outcome": "err:StackUnderflow"},
+    {"prog": [["Def", "x"]], "len": 1, "ctx": "unset", "io": "unset", "budget": 8,
+     "codemap": "none", "labels": "zero", "defs": "recursive", "entry": "raw",
+     "exp": "runs", "base_outcome": "err:StackUnderflow"},
+    {"prog": [["Def", "x"]], "len": 1, "ctx": "unset", "io": "unset", "budget": 8,
+     "codemap": "none", "labels": "zero", "defs": "recursive-opt", "entry": "open",
+     "exp": "runs", "base_outcome": "err:StackUnderflow"},
 ]
 
 
